@@ -332,6 +332,10 @@ Definition run_call (n : rawnode) (op : N) : P (list N) :=
   else if op =? 27 then b <~ pbool ;;
     pret (out_ok [] (set_raft n ((rn_raft n) <| r_batch_append := b |>)))
   else if op =? 28 then pret (out_ok [] (set_raft n (maybe_free_inflight_buffers (rn_raft n))))
+  else if op =? 29 then k <~ pnum ;;
+    (* adversarial state tweak (pointwise tie only): RaftLog::commit_to called directly on the node's log *)
+    pret (finish (RaftLog.commit_to (r_log (rn_raft n)) k)
+                 (fun l' => ([], set_raft n ((rn_raft n) <| r_log := l' |>))))
   else fun _ => None.
 
 Definition DECODE_FAIL : N := 888888.
